@@ -23,6 +23,7 @@ import (
 	"sync"
 	"time"
 
+	"github.com/grafana/cog/verifharness/e2"
 	"github.com/grafana/cog/verifharness/vlib"
 )
 
@@ -106,6 +107,61 @@ var props = map[string]propCfg{
 		Thor:  tierCfg{Checks: 20000, Shards: 12, Timeout: d("30m"), ShrinkTime: d("120s"), Steps: 60}},
 }
 
+// trimScratchCache keeps the build cache of the scratch modules (e2.ScratchCache)
+// bounded. Go's cache holds index entries (`<id>-a`) that point to outputs
+// (`<id>-d`); an index entry whose output is gone makes builds fail, so the two
+// are aged differently: an index entry goes when it has not been used for T, an
+// output only after T + 70 min (Go refreshes the time of an entry it uses at
+// most once an hour, so an output may look up to an hour older than the index
+// entry that still names it). T is two hours; beyond 20 GiB, a quarter of an
+// hour.
+func trimScratchCache() {
+	dir := e2.ScratchCache()
+	type entry struct {
+		path   string
+		size   int64
+		mod    time.Time
+		output bool
+	}
+	var entries []entry
+	var total int64
+	_ = filepath.WalkDir(dir, func(path string, d os.DirEntry, err error) error {
+		if err != nil || d.IsDir() {
+			return nil
+		}
+		name := d.Name()
+		if !strings.HasSuffix(name, "-a") && !strings.HasSuffix(name, "-d") {
+			return nil
+		}
+		info, ierr := d.Info()
+		if ierr != nil {
+			return nil
+		}
+		entries = append(entries, entry{path, info.Size(), info.ModTime(), strings.HasSuffix(name, "-d")})
+		total += info.Size()
+		return nil
+	})
+	now := time.Now()
+	drop := func(t time.Duration) {
+		for i, e := range entries {
+			limit := t
+			if e.output {
+				limit = t + 70*time.Minute
+			}
+			if e.path != "" && now.Sub(e.mod) > limit {
+				if os.Remove(e.path) == nil {
+					total -= e.size
+					entries[i].path = ""
+				}
+			}
+		}
+	}
+	drop(2 * time.Hour)
+	if total > 20<<30 {
+		drop(15 * time.Minute)
+	}
+}
+
 func root() string {
 	if r := os.Getenv("VERIF_ROOT"); r != "" {
 		return r
@@ -125,6 +181,7 @@ func main() {
 		os.Exit(2)
 	}
 	mode := os.Args[2]
+	trimScratchCache()
 	os.Exit(run(id, cfg, mode, os.Args[3:]))
 }
 
